@@ -131,7 +131,19 @@ def every_element(b, site, via=None):
         return None
     # the innermost loop: the one whose header is dominated by the headers of all the others (body sizes mislead when a body can leave the loop early and run on)
     _, n_, entry = max(cands, key=lambda x: (len([y for y in cands if y[1].bb != x[1].bb and b.dominates(y[1].bb, x[1].bb)]), -x[0]))
-    return b.all_paths_pass(entry, [site.bb], dst_set={n_.bb})
+    if b.all_paths_pass(entry, [site.bb], dst_set={n_.bb}):
+        return True
+    # `if let Some(v) = map.get(elem) { sink(v) }`: skipped only where the lookup, whose payload the site consumes, finds nothing (the values of the keys present)
+    elem = ("field", ("downcast", n_.result_term(), "Some"), "0")
+    skip = []
+    for a in (via or site).args:
+        pay = peel(_sq._unwrap_payload(a, elem, b), transparent=_sq.ID_CALLS)
+        if is_call(pay, ["HashMap::get", "BTreeMap::get"]) and any(u == elem for u in subterms(pay)):
+            for bi_ in b.reach(entry, avoid_blocks=[n_.bb]):
+                si2 = b.switch_info(bi_)
+                if si2 and si2[0][0] == "discr" and peel(si2[0][1], transparent=[]) == peel(pay, transparent=[]):
+                    skip += [(bi_, t_) for v_, t_ in si2[1] if v_ == 0]
+    return bool(skip) and n_.bb not in b.reach(entry, avoid_blocks=[site.bb], avoid_edges=skip)
 
 
 FNV_OFFSET_BASIS = 0xcbf29ce484222325
